@@ -1276,6 +1276,10 @@ func (c CreateTableStatement) Children() []Node {
 		p := p // G601: Create local copy
 		children = append(children, &p)
 	}
+	for _, opt := range c.Options {
+		opt := opt // G601: Create local copy
+		children = append(children, &opt)
+	}
 	return children
 }
 
